@@ -5,12 +5,12 @@ claim("C01", "ast pattern rules + affine normal forms + union/dispatch extractio
       "PortRef/BundleRef eq/hash well-formed; nested slice/concat resolution index maps; connection state only written through the owner API; per-element loops total; copies do not alias back-reference state.",
       "that the composition of the seven passes yields the designer's net partition for every design (heap-shaped, data dependent).",
       "DESIGN.md §4 C01")
-claim("C02", "default-pass-list liveness analysis (per-class done-set), call-graph effect analysis, dispatch exhaustiveness, guard inventory (one failing guard per fault class), affine bounds obligations",
+claim("C02", "default-pass-list liveness analysis (per-class done-set), call-graph effect analysis, dispatch exhaustiveness, guard inventory (one failing guard per fault class), affine bounds obligations, freeze-mark position against memoised checks (one known finding)",
       "every checking pass of the default list is live (own done-set) and a live ConnTypes and Orphanage run after the last rewriting pass; checker dispatches are exhaustive; "
       "a failing guard exists for each fault class of the statement (width mismatch, missing/extra connection, non-existent port/member in both directions, ownership, shared no-connect, circular instantiation, unnamed/clashing module, exporter leftovers); index bounds/emptiness; no dead guards.",
       "sufficiency of the guards' predicates for faults hidden behind arbitrary nesting of slices, references and bundles.",
       "DESIGN.md §4 C02")
-claim("C03", "affine normal forms and branch-wise index-map comparison; delegation-to-Python recognition (slice.indices / len(range)); union/decorator agreement",
+claim("C03", "affine normal forms and branch-wise index-map comparison; delegation-to-Python recognition (slice.indices / len(range)); union/decorator agreement; abstract interpretation of construction-time range tests over the order types of the bounds (rules/slicedomain.py); reaching definitions of rebound parameters",
       "two-sided integer bounds and normalisation; slice normalisation delegated to slice.indices(parent width) with width = len(range(...)), emptiness and zero step rejected, bot/top per sign of step; "
       "one memoised SliceInner; nested-slice/concat index maps incl. stride and direction; sliceable kinds = the five of the statement and width() covers them; width(Concat) = sum; parent width through the helper defined for every kind.",
       "the numerical statement over all (w, start, stop, step) and nesting depths (that is enumeration against list slicing, i.e. execution; a dynamic witness is kept under witness/ but is not a check).",
